@@ -4,6 +4,8 @@ from ..engine import Engine, Inconclusive, C, fmt, subterms
 from ..common import site
 from .ops import strip_casts
 from .c09 import root_of
+from . import c10
+from ..report import RuleView
 
 THIS_OBJ = ("deref", ("this",))
 BYTE_OPS = {"memcpy", "memset", "memcmp", "memmove", "strlen", "basic_string"}
@@ -27,11 +29,23 @@ def run(rep, tier):
     rep.rule("R-C07-typed-access", "inside the analysed headers every typed load or store whose address derives from a wrapper's raw pointer / a backend translation uses an access type whose size under the sandbox ABI "
              "equals its host size in that instantiation, i.e. goes through guest-typed storage (tainted_volatile::data / guest struct fields) and never through the application's `long`/pointer types; byte-wise libc operations are C10's")
     rep.rule("R-C07-loadstore", "tainted_volatile::get_raw_value reads its own storage and converts TO_APPLICATION; every operator= branch writes sandbox memory only through its own storage")
+    rep.rule("R-C07-range", "a bulk load (copy_and_verify_range, copy_and_verify on a pointer, copy_and_verify_buffer_address, unverified_safe_pointer_because) range-checks exactly the bytes it decodes - "
+             "(count-1)*guest stride + guest width - so that objects ending at the last byte of sandbox memory load, and nothing beyond the checked bytes is decoded (shared analysis with C10's R-C10-elem)")
     backends = ["model32"] if tier == "quick" else ["model32", "model32gi"]
     dbs = facts.load_core(backends, ["PTR", "INVOKE", "ARR"], thorough=(tier == "thorough"))
-    n = {"footprint": 0, "fns": 0, "accesses": 0, "loadstore": 0}
+    n = {"footprint": 0, "fns": 0, "accesses": 0, "loadstore": 0, "range": 0}
+    view = RuleView(rep, {"R-C10-elem": "R-C07-range"})
     for db in dbs:
         rep.units.append(db.label)
+        for name in ("rlbox::tainted_base_impl::copy_and_verify_range", "rlbox::tainted_base_impl::copy_and_verify_buffer_address", "rlbox::tainted_base_impl::unverified_safe_pointer_because"):
+            for f in db.insts(name):
+                inst = "%s | %s" % (db.label, f["full"][:160])
+                try:
+                    for p in q.paths(db, f):
+                        c10.analyse_path(view, f, p, inst, None)
+                    n["range"] += 1
+                except Inconclusive as ex:
+                    rep.inconclusive("R-C07-range", site(f), str(ex), inst)
         a = abi.abi_of(db.label)
         # ---- footprint
         for r in db.records:
@@ -142,6 +156,7 @@ def run(rep, tier):
     rep.require(n["fns"] >= 800, "only %d entry functions analysed (floor 800)" % n["fns"])
     rep.require(n["accesses"] >= 150, "only %d typed sandbox accesses seen (floor 150)" % n["accesses"])
     rep.require(n["loadstore"] >= 100, "only %d load/store members analysed" % n["loadstore"])
+    rep.require(n["range"] >= 16, "only %d bulk-load instantiations analysed for R-C07-range (floor 16)" % n["range"])
     rep.extra["instances"] = n
     rep.assumptions += ["the compiler emits exactly sizeof(type) bytes for a typed volatile access (trusted)",
                         "the rule is decided under the foreign-ABI model backend, where guest and host widths differ; on the bundled backends they coincide"]
